@@ -230,7 +230,7 @@ func propC08(w *World, r *Report) {
 		n := 0
 		for _, a := range elemAccesses(fn) {
 			n++
-			row, col := d.rangeOf(e, a.Row), d.rangeOf(e, a.Col)
+			row, col := d.rangeOf(e, a.Row), d.colRange(e, a)
 			name := accessName(w, e, a, n)
 			if a.IsStore {
 				continue
@@ -385,6 +385,7 @@ func propC08(w *World, r *Report) {
 	// N7: the raw-frame parsers exempt exactly the border from the zero-pixel (bad frame) test, so a border value
 	// can never reject a frame and thereby change recording boundaries
 	checkParsers(w, r, "N7")
+	checkSettingsImmutable(w, r, "N1", "ThermalMotion", "Config") // edge-pixels as configured
 }
 
 type rowRef struct {
@@ -511,7 +512,7 @@ func propC07(w *World, r *Report) {
 		n := 0
 		for _, a := range elemAccesses(fn) {
 			n++
-			row, col := d.rangeOf(e, a.Row), d.rangeOf(e, a.Col)
+			row, col := d.rangeOf(e, a.Row), d.colRange(e, a)
 			exact := row.ok && col.ok && row.lo == linS && row.hi == linR1 && col.lo == linS && col.hi == linC1
 			r.Check(exact, "K1", accessName(w, e, a, n)+" ranges over exactly the interior", w.InstrPos(a.Instr), fmt.Sprintf("rows [%s,%s] cols [%s,%s] %s%s", row.lo, row.hi, col.lo, col.hi, row.why, col.why))
 		}
@@ -589,7 +590,7 @@ func propC07(w *World, r *Report) {
 				if c, isC := bo.Y.(*ssa.Const); !isC || c.Int64() != 1 {
 					continue
 				}
-				if !isInteger(bo.Type()) || e.ivOfIsLoopCounter(bo.X.(*ssa.Phi)) {
+				if !isInteger(bo.Type()) || e.ivOfIsLoopCounter(bo.X.(*ssa.Phi)) || rangeIndexOf(bo) != nil {
 					continue
 				}
 				found++
@@ -597,6 +598,9 @@ func propC07(w *World, r *Report) {
 				var pixGuards []string
 				for _, g := range gs {
 					s := g.String()
+					if isRangeLoopGuard(g) {
+						continue // "the range loop is still running" is not a condition on pixel values
+					}
 					if strings.Contains(s, "cptvframe.Frame.Pix") {
 						pixGuards = append(pixGuards, s)
 					}
@@ -653,7 +657,9 @@ func propC07(w *World, r *Report) {
 	}
 	r.Check(strings.Contains(sz, "NewFrameLoop((config.ThermalMotion.FrameCompareGap"+cfgMotion+" + 1),"), "K5", "comparison ring holds FrameCompareGap+1 frames", w.Pos(d.Ctor.Pos()), sz)
 	checkRingResetAndOldest(w, r, "K5")
+	checkDetectorResetRings(w, r, d, k, "K5") // "earliest frame SINCE THE RESET": the detector's Reset really empties its rings
 	checkRingMove(w, r, "K5")
+	checkSettingsImmutable(w, r, "K2", "ThermalMotion", "Config") // the thresholds, gap and flags as configured
 }
 
 func (c *ssaConstHelper) unused() {}
@@ -961,4 +967,11 @@ func clampOnlyUses(v ssa.Value, isT func(ssa.Value) bool, depth int) ssa.Instruc
 		}
 	}
 	return nil
+}
+
+// isRangeLoopGuard recognises the header test of "for i := range X": lt(rangeidx(X), len(X)), taken.
+func isRangeLoopGuard(g Guard) bool {
+	t := g.Cond
+	return g.Pos && t.Op == "lt" && len(t.Args) == 2 && t.Args[0].Op == "rangeidx" && t.Args[1].Op == "len" &&
+		len(t.Args[0].Args) == 1 && len(t.Args[1].Args) == 1 && t.Args[0].Args[0].String() == t.Args[1].Args[0].String()
 }
